@@ -436,3 +436,293 @@ Proof.
   - intros t IHt more IHm Hok. simpl in Hok. apply andb_prop in Hok. destruct Hok as [Ht Hm].
     cbn [EA TA]. now rewrite (IHt Ht), (IHm Hm), sapp_lim.
 Qed.
+
+(* ------------------------------------------------------------------ Go: the stack splitter over regular text *)
+
+Fixpoint parts_of (t : wt) : word * str :=      (* parts appended to the current element, pending literal *)
+  match t with
+  | WEnd p => ([], p)
+  | WGroup p a more rest =>
+      (lit_of p ++ PBrace false ((fst (parts_of a) ++ lit_of (snd (parts_of a))) :: elemsA more) :: fst (parts_of rest),
+       snd (parts_of rest))
+  end
+with elemsA (m : alts) : list word :=
+  match m with
+  | AOne t => [fst (parts_of t) ++ lit_of (snd (parts_of t))]
+  | ACons t more => (fst (parts_of t) ++ lit_of (snd (parts_of t))) :: elemsA more
+  end.
+Definition elem (t : wt) : word := fst (parts_of t) ++ lit_of (snd (parts_of t)).
+
+Definition with_found (b : bool) (st : state) : state := mkState (top st) (opn st) b.
+Definition fnd (t : wt) (b : bool) : bool := match t with WEnd _ => b | WGroup _ _ _ _ => true end.
+
+Lemma add_parts_nil : forall st, add_parts [] st = st.
+Proof. intros [tp [|[sq d a] r] fd]; unfold add_parts; simpl; now rewrite app_nil_r. Qed.
+
+Lemma with_found_id : forall st, with_found (found st) st = st.
+Proof. now intros [tp fs fd]. Qed.
+
+Lemma add_parts_add_parts : forall a b st, add_parts b (add_parts a st) = add_parts (a ++ b) st.
+Proof. intros a b [tp [|[sq d c] r] fd]; unfold add_parts; simpl; now rewrite app_assoc. Qed.
+
+Lemma add_parts_with_found : forall ps b st, add_parts ps (with_found b st) = with_found b (add_parts ps st).
+Proof. intros ps b [tp [|f r] fd]; reflexivity. Qed.
+
+Lemma with_found_twice : forall b c st, with_found b (with_found c st) = with_found b st.
+Proof. reflexivity. Qed.
+
+Lemma with_found_mk : forall b st x, with_found b (mkState (top st) (opn st) x) = with_found b st.
+Proof. reflexivity. Qed.
+
+Lemma with_found_add_indep : forall x ps tp r b b',
+  with_found x (add_parts ps (mkState tp r b)) = with_found x (add_parts ps (mkState tp r b')).
+Proof. intros x ps tp [|f r] b b'; reflexivity. Qed.
+
+Lemma scan_plain : forall p, plain p = true -> forall x pend st, scan (p ++ x) pend st = scan x (pend ++ p) st.
+Proof.
+  induction p as [|c p IH]; intros Hp x pend st.
+  - simpl. now rewrite app_nil_r.
+  - destruct (plain_cons _ _ Hp) as (H1 & H2 & H3 & H4 & H5 & Hp').
+    apply N.eqb_neq in H1, H2, H3, H4, H5.
+    change ((c :: p) ++ x) with (c :: (p ++ x)). cbn [scan]. rewrite H5, H1.
+    assert (E0: scan (p ++ x) (pend ++ [c]) st = scan x (pend ++ c :: p) st).
+    { rewrite (IH Hp'). now rewrite <- app_assoc. }
+    destruct (opn st) as [|f r]; [exact E0|]. rewrite H3, H4, H2. exact E0.
+Qed.
+
+Lemma scan_lb : forall x pend st, scan (LB :: x) pend st = scan x [] (open_brace (flush pend st)).
+Proof. reflexivity. Qed.
+
+Lemma scan_comma : forall x pend tp f r fd,
+  scan (COMMA :: x) pend (mkState tp (f :: r) fd) = scan x [] (do_comma (flush_frame pend f) r (mkState tp (f :: r) fd)).
+Proof. reflexivity. Qed.
+
+Lemma scan_rb : forall x pend tp f r fd,
+  scan (RB :: x) pend (mkState tp (f :: r) fd) = scan x [] (do_close (flush_frame pend f) r (mkState tp (f :: r) fd)).
+Proof. reflexivity. Qed.
+
+Lemma close_parts_list : forall f, fseq f = false -> (2 <= length (felems f))%nat ->
+  close_parts f = ([PBrace false (felems f)], true).
+Proof.
+  intros f Sq L. unfold close_parts. destruct (felems f) as [|e [|e' es]]; simpl in L; try lia.
+  cbv zeta. now rewrite Sq.
+Qed.
+
+Lemma fnd_true : forall t, fnd t true = true.
+Proof. now destruct t. Qed.
+
+Lemma scan_U :
+  (forall t, ok_wt t = true -> forall x st,
+     scan (U t ++ x) [] st
+     = scan x (snd (parts_of t)) (with_found (fnd t (found st)) (add_parts (fst (parts_of t)) st)))
+  /\
+  (forall m, ok_alts m = true -> forall x d tp r fd, d <> [] ->
+     scan (UA m ++ RB :: x) [] (mkState tp (mkFrame false d [] :: r) fd)
+     = scan x [] (with_found true (add_parts [PBrace false (d ++ elemsA m)] (mkState tp r fd)))).
+Proof.
+  apply wt_alts_ind.
+  - (* plain text *)
+    intros p Hp x st. simpl in Hp. cbn [U parts_of fst snd fnd].
+    rewrite scan_plain by exact Hp. now rewrite add_parts_nil, with_found_id.
+  - (* a group *)
+    intros p a IHa more IHm rest IHr Hok x st. simpl in Hok.
+    apply andb_prop in Hok. destruct Hok as [Hok Hr]. apply andb_prop in Hok. destruct Hok as [Hok Hm].
+    apply andb_prop in Hok. destruct Hok as [Hp Ha].
+    cbn [U]. rewrite <- app_assoc. rewrite scan_plain by exact Hp. simpl app.
+    rewrite scan_lb. rewrite <- app_assoc. rewrite (IHa Ha). simpl app.
+    (* the state after the first alternative: its parts are in the new frame *)
+    destruct st as [tp fs fd].
+    set (S1 := flush p {| top := tp; opn := fs; found := fd |}).
+    assert (ES: with_found (fnd a (found (open_brace S1))) (add_parts (fst (parts_of a)) (open_brace S1))
+                = mkState (top S1) (mkFrame false [] (fst (parts_of a)) :: opn S1) (fnd a (found S1))).
+    { reflexivity. }
+    rewrite ES. rewrite scan_comma.
+    assert (EC: do_comma (flush_frame (snd (parts_of a)) (mkFrame false [] (fst (parts_of a)))) (opn S1)
+                  (mkState (top S1) (mkFrame false [] (fst (parts_of a)) :: opn S1) (fnd a (found S1)))
+                = mkState (top S1) (mkFrame false [elem a] [] :: opn S1) (fnd a (found S1))).
+    { reflexivity. }
+    rewrite EC. rewrite <- app_assoc. simpl app.
+    rewrite (IHm Hm) by discriminate.
+    rewrite (IHr Hr). cbn [parts_of fst snd fnd found with_found]. f_equal.
+    rewrite fnd_true. rewrite add_parts_with_found, with_found_twice.
+    rewrite add_parts_add_parts.
+    rewrite (with_found_add_indep true _ (top S1) (opn S1) _ (found S1)).
+    assert (E1: mkState (top S1) (opn S1) (found S1) = S1) by (destruct S1; reflexivity).
+    rewrite E1. unfold S1, flush. rewrite !add_parts_add_parts. unfold elem. reflexivity.
+  - (* the last alternative, then '}' *)
+    intros t IHt Hok x d tp r fd Hd. simpl in Hok. cbn [UA elemsA].
+    rewrite (IHt Hok).
+    assert (ES: with_found (fnd t (found (mkState tp (mkFrame false d [] :: r) fd)))
+                  (add_parts (fst (parts_of t)) (mkState tp (mkFrame false d [] :: r) fd))
+                = mkState tp (mkFrame false d (fst (parts_of t)) :: r) (fnd t fd)) by reflexivity.
+    rewrite ES, scan_rb. f_equal. unfold do_close.
+    rewrite close_parts_list.
+    + cbn [found top]. rewrite orb_true_r. destruct r as [|g r']; reflexivity.
+    + reflexivity.
+    + unfold felems, flush_frame. cbn [fdone facc]. rewrite app_length. simpl. destruct d; [congruence|simpl; lia].
+  - (* an alternative followed by ',' *)
+    intros t IHt more IHm Hok x d tp r fd Hd. simpl in Hok. apply andb_prop in Hok. destruct Hok as [Ht Hm].
+    cbn [UA elemsA]. rewrite <- app_assoc. rewrite (IHt Ht). simpl app.
+    assert (ES: with_found (fnd t (found (mkState tp (mkFrame false d [] :: r) fd)))
+                  (add_parts (fst (parts_of t)) (mkState tp (mkFrame false d [] :: r) fd))
+                = mkState tp (mkFrame false d (fst (parts_of t)) :: r) (fnd t fd)) by reflexivity.
+    rewrite ES, scan_comma.
+    assert (EC: do_comma (flush_frame (snd (parts_of t)) (mkFrame false d (fst (parts_of t)))) r
+                  (mkState tp (mkFrame false d (fst (parts_of t)) :: r) (fnd t fd))
+                = mkState tp (mkFrame false (d ++ [elem t]) [] :: r) (fnd t fd)) by reflexivity.
+    rewrite EC. rewrite (IHm Hm) by (destruct d; discriminate).
+    rewrite (with_found_add_indep true _ tp r (fnd t fd) fd).
+    unfold elem. rewrite <- app_assoc. reflexivity.
+Qed.
+
+Lemma contains_lb_app : forall p x, contains_byte LB (p ++ LB :: x) = true.
+Proof.
+  intros p x. unfold contains_byte. induction p as [|c p IH]; cbn [app index_byte].
+  - reflexivity.
+  - destruct (c =? LB); [reflexivity|]. destruct (index_byte LB (p ++ LB :: x)); [reflexivity|discriminate].
+Qed.
+
+Theorem split_regular_group : forall p a more rest, ok_wt (WGroup p a more rest) = true ->
+  split_braces (U (WGroup p a more rest)) = (true, elem (WGroup p a more rest)).
+Proof.
+  intros p a more rest Hok. unfold split_braces.
+  assert (C: contains_byte LB (U (WGroup p a more rest)) = true) by (cbn [U]; apply contains_lb_app).
+  rewrite C. cbn [negb].
+  rewrite <- (app_nil_r (U (WGroup p a more rest))). rewrite (proj1 scan_U _ Hok). cbn [scan].
+  unfold flush, elem. cbn [fnd found add_parts opn top with_found]. cbn [unclosed]. rewrite app_nil_r. reflexivity.
+Qed.
+
+(* ------------------------------------------------------------------ Go: bracesSeqRec on trees without sequences *)
+
+Fixpoint tp_sem (q : part) : list str :=
+  match q with
+  | PLit s => [s]
+  | PBrace _ es => flat_map (fun e => fold_right (fun x acc => prod (tp_sem x) acc) [[]] e) es
+  end.
+Definition TW (w : word) : list str := fold_right (fun x acc => prod (tp_sem x) acc) [[]] w.
+
+Fixpoint noseq_part (q : part) : bool :=
+  match q with
+  | PLit _ => true
+  | PBrace sq es => negb sq && forallb (forallb noseq_part) es
+  end.
+Definition noseq (w : word) : bool := forallb noseq_part w.
+
+Lemma prod_cons_l : forall x X Y, prod (x :: X) Y = map (fun y => x ++ y) Y ++ prod X Y.
+Proof. reflexivity. Qed.
+
+Lemma prod_app_l : forall A B Z, prod (A ++ B) Z = prod A Z ++ prod B Z.
+Proof. intros; unfold prod. now rewrite flat_map_app. Qed.
+
+Lemma prod_map_l : forall x Y Z, prod (map (fun y => x ++ y) Y) Z = map (fun y => x ++ y) (prod Y Z).
+Proof.
+  intros x Y Z. induction Y as [|y Y IH]; [reflexivity|].
+  cbn [map]. rewrite !prod_cons_l, map_app, IH. f_equal.
+  rewrite map_map. apply map_ext. intros z. now rewrite app_assoc.
+Qed.
+
+Lemma prod_assoc : forall X Y Z, prod (prod X Y) Z = prod X (prod Y Z).
+Proof.
+  induction X as [|x X IH]; intros Y Z; [reflexivity|].
+  rewrite !prod_cons_l, prod_app_l, IH, prod_map_l. reflexivity.
+Qed.
+
+Lemma prod_unit_l : forall Y, prod [[]] Y = Y.
+Proof. intros Y. unfold prod. simpl. rewrite app_nil_r. now rewrite map_id. Qed.
+
+Lemma prod_flat_map_l : forall {A} (g : A -> list str) l Z,
+  prod (flat_map g l) Z = flat_map (fun e => prod (g e) Z) l.
+Proof.
+  intros A g l Z. induction l as [|e l IH]; [reflexivity|]. simpl. now rewrite prod_app_l, IH.
+Qed.
+
+Lemma TW_cons : forall q w, TW (q :: w) = prod (tp_sem q) (TW w).
+Proof. reflexivity. Qed.
+
+Lemma TW_app : forall a b, TW (a ++ b) = prod (TW a) (TW b).
+Proof.
+  induction a as [|q a IH]; intros b.
+  - change (TW ([] ++ b)) with (TW b). change (TW []) with [@nil N]. now rewrite prod_unit_l.
+  - change ((q :: a) ++ b) with (q :: (a ++ b)). rewrite !TW_cons, IH, prod_assoc. reflexivity.
+Qed.
+
+Lemma tp_sem_brace : forall sq es, tp_sem (PBrace sq es) = flat_map TW es.
+Proof. reflexivity. Qed.
+
+Lemma flat_res_sem : forall (f : word -> res (list (list str))) (g : word -> list str) es l,
+  (forall e l', In e es -> f e = Ok l' -> map (@concat N) l' = g e) ->
+  flat_res f es = Ok l -> map (@concat N) l = flat_map g es.
+Proof.
+  intros f g. induction es as [|e es IH]; intros l H R; simpl in R.
+  - injection R as <-. reflexivity.
+  - destruct (f e) as [le| |] eqn:Fe; try discriminate.
+    destruct (flat_res f es) as [lr| |] eqn:Fr; try discriminate.
+    injection R as <-. rewrite map_app. simpl. f_equal.
+    + apply (H e le); [now left|exact Fe].
+    + apply IH; [|reflexivity]. intros e' l' Hin. apply H. now right.
+Qed.
+
+Lemma braces_rec_sem : forall fuel w l, noseq w = true -> braces_rec fuel w = Ok l -> map (@concat N) l = TW w.
+Proof.
+  induction fuel as [|fuel IH]; intros w l Hn R; [discriminate|].
+  destruct w as [|[s|sq es] rest]; simpl in R.
+  - injection R as <-. reflexivity.
+  - simpl in Hn. destruct (braces_rec fuel rest) as [l0| |] eqn:R0; try discriminate.
+    injection R as <-. rewrite TW_cons. cbn [tp_sem]. rewrite prod_cons_l. cbn [prod flat_map]. rewrite app_nil_r.
+    rewrite <- (IH rest l0 Hn R0). rewrite !map_map. reflexivity.
+  - unfold noseq in Hn. simpl in Hn. apply andb_prop in Hn. destruct Hn as [Hq Hrest].
+    apply andb_prop in Hq. destruct Hq as [Hsq Hes]. apply negb_true_iff in Hsq. subst sq.
+    rewrite TW_cons, tp_sem_brace, prod_flat_map_l.
+    apply (flat_res_sem (fun e => braces_rec fuel (e ++ rest)) (fun e => prod (TW e) (TW rest)) es l); [|exact R].
+    intros e l' Hin Re. rewrite <- TW_app. apply IH; [|exact Re].
+    unfold noseq. rewrite forallb_app. rewrite forallb_forall in Hes. rewrite (Hes e Hin). exact Hrest.
+Qed.
+
+(* the tree the splitter builds denotes the declarative product *)
+Lemma noseq_lit_of : forall p, noseq (lit_of p) = true.
+Proof. destruct p; reflexivity. Qed.
+Lemma TW_lit_of : forall p, TW (lit_of p) = [p].
+Proof. destruct p; [reflexivity|]. unfold TW, prod. simpl. now rewrite app_nil_r. Qed.
+
+Lemma elem_group : forall p a more rest,
+  elem (WGroup p a more rest) = lit_of p ++ PBrace false (elem a :: elemsA more) :: elem rest.
+Proof. intros. unfold elem. cbn [parts_of fst snd]. now rewrite <- app_assoc. Qed.
+
+Lemma elem_sem :
+  (forall t, noseq (elem t) = true /\ TW (elem t) = T t) /\
+  (forall m, forallb noseq (elemsA m) = true /\ flat_map TW (elemsA m) = TA m).
+Proof.
+  apply wt_alts_ind.
+  - intros p. unfold elem. cbn [parts_of fst snd app T]. split; [apply noseq_lit_of|apply TW_lit_of].
+  - intros p a [Na Ta] more [Nm Tm] rest [Nr Tr]. rewrite elem_group. split.
+    + unfold noseq in *. rewrite forallb_app. cbn [forallb noseq_part negb andb].
+      fold (noseq (lit_of p)). rewrite noseq_lit_of. cbn [andb].
+      change (forallb (forallb noseq_part) (elem a :: elemsA more)) with (forallb noseq (elem a :: elemsA more)).
+      cbn [forallb]. rewrite Na. cbn [andb].
+      change (forallb (forallb noseq_part) (elemsA more)) with (forallb (fun w : word => forallb noseq_part w) (elemsA more)).
+      rewrite Nm. exact Nr.
+    + rewrite TW_app, TW_cons, TW_lit_of, tp_sem_brace. cbn [flat_map]. rewrite Ta, Tm, Tr. cbn [T].
+      now rewrite prod_assoc.
+  - intros t [Nt Tt]. cbn [elemsA forallb flat_map TA]. fold (elem t). rewrite Nt, Tt, app_nil_r. auto.
+  - intros t [Nt Tt] more [Nm Tm]. cbn [elemsA forallb flat_map TA]. fold (elem t). rewrite Nt, Tt, Nm, Tm. auto.
+Qed.
+
+(* ------------------------------------------------------------------ the theorem *)
+
+Theorem expand_matches_spec_regular : forall t, ok_wt t = true -> to_sres (expand_word (U t)) = spec (U t).
+Proof.
+  intros t Hok. rewrite (spec_regular t Hok), (proj1 E_lim t Hok).
+  destruct t as [p|p a more rest].
+  - simpl in Hok. cbn [U T]. destruct (no_brace_word p (plain_no_lb p Hok)) as [-> _]. reflexivity.
+  - pose proof (split_regular_group p a more rest Hok) as HS.
+    pose proof (split_wf (U (WGroup p a more rest))) as W. rewrite HS in W. cbn [snd] in W.
+    unfold expand_word. rewrite HS. set (q := elem (WGroup p a more rest)) in *.
+    destruct (proj1 elem_sem (WGroup p a more rest)) as [Nq Tq]. fold q in Nq, Tq.
+    unfold expand.
+    pose proof (braces_rec_no_panic (S (word_size q)) q W) as NP.
+    pose proof (fun c => braces_rec_fuel (S (word_size q)) q c (Nat.lt_succ_diag_r _)) as NF.
+    destruct (braces_rec (S (word_size q)) q) as [l|c|] eqn:R; [|exfalso; now apply (NF c)|congruence].
+    pose proof (braces_rec_sem _ _ _ Nq R) as Sem. rewrite Tq in Sem.
+    unfold lim. rewrite <- Sem, map_length. unfold str in *.
+    destruct (Nat.ltb limit (length l)); reflexivity.
+Qed.
